@@ -25,6 +25,7 @@ type labelDay struct {
 	fp     uint64
 	day    int64
 	labels [][2]string
+	log    bool // a row of type 1 (log stream)
 }
 
 type script struct {
@@ -109,9 +110,10 @@ func answerLabels(q string, ldb []labelDay) [][]driver.Value {
 			d2 = t.Unix() / 86400
 		}
 	}
+	typed := strings.Contains(q, "(type IN (2,0))") // the statement's own type conjunct decides whether log rows are read
 	var rows [][]driver.Value
 	for _, s := range ldb {
-		if !want[s.fp] || s.day < d1 || s.day > d2 {
+		if !want[s.fp] || s.day < d1 || s.day > d2 || (typed && s.log) {
 			continue
 		}
 		var l [][]interface{}
